@@ -474,6 +474,7 @@ def run_case(case, verbose=False, hooks=None):
         return max(n, m)
 
     w.pending_probe = pending_probe
+    w.warn_log = []
 
     def sample_registered(where_):
         for r in ctx.executors:
@@ -555,6 +556,7 @@ def _history(w, ctx, verdict, wlist):
     H.task_crashes = w.task_crashes
     H.child_errors = w.child_errors
     H.warnings = [str(x.message)[:120] for x in wlist]
+    H.warn_log = list(getattr(w, "warn_log", None) or [])
     H.events = w.events
     H.death_snapshots = ctx.death_snapshots
     H.gate_open_obs = ctx.gate_open_obs
